@@ -11,7 +11,12 @@ namespace BitSerializer::Detail
 	class CBinaryStreamReader
 	{
 	public:
+#if defined(BITSERIALIZER_VERIF) && defined(BITSERIALIZER_VERIF_CHUNK_SIZE)
+		// Verification hook: smaller buffer lets short documents reach every alignment relative to the buffer boundary
+		static constexpr size_t chunk_size = BITSERIALIZER_VERIF_CHUNK_SIZE;
+#else
 		static constexpr size_t chunk_size = 256;
+#endif
 
 		explicit CBinaryStreamReader(std::istream& inputStream);
 		CBinaryStreamReader(const CBinaryStreamReader&) = delete;
